@@ -129,7 +129,9 @@ func (p *Prog) VerifyFunc(c *Contract) (res *FuncResult) {
 		vc.addObl(&Obligation{Kind: "post", Anchor: fmt.Sprintf("ens%d", k), Props: c.ClauseProps(en), Desc: en.Src, File: en.File, Line: en.Line, Goals: goals, Mark: mark})
 	}
 	// frame obligations: when modifies is declared, everything else allocated before the call is unchanged
-	if c.HasMod && !c.ModAll {
+	// A contract without a modifies clause claims the function changes nothing that existed
+	// before the call; callers rely on that, so it is an obligation here ("modifies *" opts out).
+	if !c.ModAll {
 		vc.frameObligations(fr, c)
 	}
 	// model variables: parameters and receiver fields
@@ -281,7 +283,7 @@ func (vc *VC) frameObligations(fr *Frame, c *Contract) {
 	}
 	al := vc.root.Get("$alloc")
 	for _, name := range sortedKeys(vc.written) {
-		if name == "$alloc" || name == "*" {
+		if name == "$alloc" || name == "*" || strings.HasPrefix(name, "G|ghost.") {
 			continue
 		}
 		if strings.HasPrefix(name, "G|") {
